@@ -312,6 +312,8 @@ def call_value(I: Interp, f, args, kwargs, node=None):
         if any(isinstance(a, Opaque) for a in args) and f in _OPAQUE_TOLERANT:
             return Opaque("builtin")
         return f(I, *args, **kwargs)
+    if isinstance(f, SV) and callable(V.c.ghost.get("call_value_hook")):
+        return V.c.ghost["call_value_hook"](I, f, args, kwargs, node)  # calling an abstract value (e.g. a default factory): sidecar model
     raise Unsupported(f"call of {f!r}")
 
 
